@@ -518,6 +518,7 @@ theorem pffg_sites_pinned : segPffgSites =
    "call | dimension_index_values=dimension_index_values",
    "call | plane_position=plane_positions[plane_index]",
    "call | source_image_index=plane_indexifsource_frame_indicesisNoneelsesource_frame_indices[plane_index]",
+   "call | are_spatial_locations_preserved=are_spatial_locations_preservedand(source_frame_indicesisNoneorsource_frame_indices[plane_index]isnotNone)",
    "_get_pffg_item | segment_numberisNone | all_index_values=dimension_index_values",
    "_get_pffg_item | not(segment_numberisNone) | all_index_values=[int(segment_number)]+dimension_index_values",
    "_get_pffg_item | DataElement | 2134359,'UL',all_index_values",
@@ -675,6 +676,30 @@ theorem read_by_recorded_source_is_read_by_plane (codec : Option Codec) (σ : Na
     (hinj : ∀ k ∈ o.keys, ∀ p, (p ∈ request ∨ ∃ k' ∈ o.keys, k'.2 = p) → σ k.2 = σ p → k.2 = p) :
     readBySource codec (relabelSources σ o) (request.map σ) .assertEmpty = readBySource codec o request .assertEmpty :=
   readBySource_relabel codec σ o request hinj
+
+/-- (10b'') ... **when the source image lacks some tiles** (a TILED_SPARSE slide that leaves out background tiles; fix 3f46837):
+`σ p = none` -- the frame of tile `p` names no source frame (`are_spatial_locations_preserved and source_frame_indices[p] is not
+None`, pinned in T25).  `recordedSources` is `none` as soon as one STORED frame names no source frame (the library then refuses
+reads by source frame); otherwise -- in particular when the tiles the source lacks are empty in the mask and omitted -- reading
+by the recorded numbers reads the planes, exactly as in (10b').  Tie C: oracle of the `tiled` stream (`written-file/tiled`: every
+stored frame that shows a source tile names exactly that source frame; `read-source-frame`). -/
+theorem read_by_recorded_source_with_missing_tiles (codec : Option Codec) (σ : Nat → Option Nat) (o o' : SegObj)
+    (request : List Nat) (hrec : recordedSources σ o = some o')
+    (hinj : ∀ k ∈ o.keys, ∀ p, (p ∈ request ∨ ∃ k' ∈ o.keys, k'.2 = p) → (σ k.2).getD 0 = (σ p).getD 0 → k.2 = p) :
+    readBySource codec o' (request.map fun p => (σ p).getD 0) .assertEmpty = readBySource codec o request .assertEmpty ∧
+    ∀ k ∈ o.keys, (σ k.2).isSome := by
+  have h := recordedSources_eq σ o o' hrec
+  rw [h.1]
+  exact ⟨readBySource_relabel codec _ o request hinj, h.2⟩
+
+/-- non-vacuity: three stored tiles 0, 2, 3 of a grid whose tile 1 the source lacks; a stored frame on tile 1 would make the
+    recorded table partial -/
+example : (recordedSources (fun p => if p = 1 then none else some (if p = 0 then 0 else p - 1))
+      { rows := 1, cols := 1, bits := 8, t := .labelmap, mfv := 255, segs := [1], keys := [(none, 0), (none, 2), (none, 3)],
+        pd := .native [] }).map (·.keys) = some [(none, 0), (none, 1), (none, 2)] ∧
+    (recordedSources (fun p => if p = 1 then none else some p)
+      { rows := 1, cols := 1, bits := 8, t := .labelmap, mfv := 255, segs := [1], keys := [(none, 0), (none, 1)],
+        pd := .native [] }).isNone = true := by decide +kernel
 
 /-- (10c) **Frame by frame** (`get_stored_frame(i + 1)`, row `i` of `pixel_array`, whatever the transport): the `i`-th
 stored frame is the property's expectation for the segment and the source plane its per-frame functional groups name -- a
